@@ -63,6 +63,9 @@ struct upipe_xfer_mgr {
     struct upump *upump;
     /** remote upump_mgr */
     struct upump_mgr *upump_mgr;
+    /** set by the thread dropping the last reference once it is done with
+     * the queue (it may still be inside uqueue_push() when DETACH is popped) */
+    uatomic_uint32_t detach_queued;
     /** queue length */
     uint8_t queue_length;
     /** queue of messages */
@@ -529,6 +532,7 @@ static void upipe_xfer_mgr_free(struct upipe_mgr *mgr)
     upump_free(xfer_mgr->upump);
     upump_mgr_release(xfer_mgr->upump_mgr);
     uqueue_clean(&xfer_mgr->uqueue);
+    uatomic_clean(&xfer_mgr->detach_queued);
     umutex_release(xfer_mgr->mutex);
     upipe_xfer_mgr_vacuum(mgr);
     free(xfer_mgr);
@@ -561,6 +565,12 @@ static void upipe_xfer_mgr_worker(struct upump *upump)
                 upipe_release(msg->upipe_remote);
                 break;
             case UPIPE_XFER_DETACH:
+                /* the detaching thread may not have returned from
+                 * uqueue_push() yet: look at the message again on the next
+                 * iteration rather than freeing the queue under it */
+                if (unlikely(!uatomic_load(&xfer_mgr->detach_queued)) &&
+                    uqueue_push(&xfer_mgr->uqueue, msg))
+                    return;
                 upipe_xfer_msg_free(mgr, msg);
                 upipe_xfer_mgr_free(mgr);
                 return;
@@ -614,8 +624,11 @@ static void upipe_xfer_mgr_detach(struct urefcount *urefcount)
     urefcount_clean(urefcount);
 
     union upipe_xfer_arg arg = { .pipe = NULL };
-    upipe_xfer_mgr_send(upipe_xfer_mgr_to_upipe_mgr(xfer_mgr),
-                        UPIPE_XFER_DETACH, NULL, arg);
+    if (likely(ubase_check(upipe_xfer_mgr_send(
+                        upipe_xfer_mgr_to_upipe_mgr(xfer_mgr),
+                        UPIPE_XFER_DETACH, NULL, arg))))
+        /* must be our very last access to the manager */
+        uatomic_store(&xfer_mgr->detach_queued, 1);
 }
 
 /** @This attaches a upipe_xfer_mgr to a given event loop. The xfer manager
@@ -740,6 +753,7 @@ struct upipe_mgr *upipe_xfer_mgr_alloc(uint8_t queue_length,
     xfer_mgr->mutex = umutex_use(mutex);
     xfer_mgr->upump = NULL;
     xfer_mgr->upump_mgr = NULL;
+    uatomic_init(&xfer_mgr->detach_queued, 0);
     xfer_mgr->queue_length = queue_length;
     ulifo_init(&xfer_mgr->msg_pool, msg_pool_depth,
                xfer_mgr->extra + uqueue_sizeof(queue_length));
